@@ -293,7 +293,12 @@ def check(prog, run):
         stores = [n for n in own_nodes(fr.node) if isinstance(n, ast.Assign) and ast.unparse(n.targets[0]).startswith("self._resolver_cache[")]
         if tgt is None or tgt != src or not stores or ast.unparse(stores[0].value) != tgt:
             run.report(r, "%s:Executor.field_resolver:store" % EXE, fr.where(c), "the middleware-wrapped resolver is not the value stored in / returned from the cache")
-        if ast.unparse(c.args[1]) != "self._middlewares":
+        mw = ast.unparse(c.args[1])
+        if isinstance(c.args[1], ast.Name):
+            srcs = [ast.unparse(n.value) for n in own_nodes(fr.node) if isinstance(n, ast.Assign) and ast.unparse(n.targets[0]) == mw]
+            if len(srcs) == 1:
+                mw = srcs[0]
+        if mw != "self._middlewares":
             run.report(r, "%s:Executor.field_resolver:which-middlewares" % EXE, fr.where(c), "not the configured middlewares")
     # path form: with middlewares configured, every cache-miss execution applies the chain before storing/returning
     from .. import boolx
